@@ -275,6 +275,7 @@ def check_property(prop, tier, seed):
         "explanation": reg.get("explanation", "") + (" | UNDECIDED: " + ", ".join(o["name"] for o in undecided) if undecided else ""),
         "functions_under_contract": pv.get("functions", []),
         "functions_symbolically_executed": pv.get("functions_symbolically_executed", []),
+        "known_findings_reproduced": list(known_lines),
         "obligation_results": [
             {k: o.get(k) for k in ("name", "function", "backend", "result", "ms", "kind")} for o in obligations
         ],
